@@ -134,11 +134,15 @@ def _lambda_vars(shape) -> List[int]:
     return found
 
 
+def prepare(tier: str, seed: int) -> None:
+    SHAPES[:] = _shapes(tier, seed)
+
+
 def main() -> int:
     run = Run(PID, "model_checking")
     run.encode("odata_query.utils.expression_relative_to_identifier", "odata_query.rewrite.IdentifierStripper.visit_Attribute",
                "odata_query.visitor.NodeTransformer.generic_visit", "odata_query.visitor.NodeVisitor.visit")
-    SHAPES[:] = _shapes(run.tier, run.seed)
+    prepare(run.tier, run.seed)
     run.bounds = {"names": "every identifier / path segment / lambda variable / namespace segment is one arbitrary "
                            "code point (symbolic str, len == 1)", "path_depth": "1..4 segments",
                   "expression_nesting": "<= 1 exhaustive over the leaf set, depth 2 seeded sample",
